@@ -127,3 +127,17 @@ func TestVerifReplayFipCheckOrder(t *testing.T) {
 	}
 	fmt.Println("NOT-REPRODUCED: accepted list is well-formed")
 }
+
+// (*FloatingIPPool).UnmarshalJSON#safe:nil: a configuration text with a null entry in
+// nodeSubnets must be rejected with an error, not crash the daemon.
+func TestVerifReplayPoolNullNodeSubnet(t *testing.T) {
+	defer func() {
+		if r := recover(); r != nil {
+			fmt.Printf("REPRODUCED: decoding a pool configuration with \"nodeSubnets\":[null] panics: %v\n", r)
+			t.FailNow()
+		}
+	}()
+	var pool FloatingIPPool
+	err := json.Unmarshal([]byte(`{"nodeSubnets":[null],"ips":["10.0.0.2"],"subnet":"10.0.0.0/24","gateway":"10.0.0.1"}`), &pool)
+	fmt.Println("NOT-REPRODUCED: decoder returned", err)
+}
